@@ -52,10 +52,20 @@ ODD = ["\r", "\t", "\x00", "�", " ", "٣", "é", "€", ":", ": ", " ", "total
        "-", "+", ".", "1_0", "_", "e", "E5", "0x10", "9" * 40, "iterations=", "runtime: ", "ms", "us", "success: true"]
 
 
+DEGENERATE = [".", ".e3", "e3", "..", "1..2", "1.2.3", "+", "-", "", "1e", "1e+", ".e", "-.5", "+.e1", "1.e", "٣.٣", ".٣", "0x1p3", "1,5", "1 .5"]
+_NUM = re.compile(r"\d+(?:\.\d*)?(?:[eE][-+]?\d+)?|\.\d+(?:[eE][-+]?\d+)?")
+
+
 def mutate_line(rng, line):
     r = rng.random()
     if not line:
         return rng.choice(ODD)
+    if rng.random() < 0.15:
+        # a numeral of the line replaced by a degenerate one (a lone dot, an exponent without digits, two dots ...)
+        ms = list(_NUM.finditer(line))
+        if ms:
+            m = rng.choice(ms)
+            return line[:m.start()] + rng.choice(DEGENERATE) + line[m.end():]
     i = rng.randrange(len(line) + 1)
     if r < 0.3:
         return line[:i] + rng.choice(ODD) + line[i:]
@@ -150,6 +160,25 @@ def run(chk):
             chk.count("%s:%s" % (A.NAMES[which], res[0] if res[0] != "reject" else ("invalid" if res[1] else "unparsable")))
         if i % 3 == 0:
             match_lines.extend(text.split("\n")[:3])
+
+    # ---- the model-free oracle alone on many more outputs (no model evaluation: cheap), as the search for a failing input
+    nextra = 12000 if tier == "quick" else 150000
+    for i in range(nextra):
+        which = i % 7
+        text, marker = gen_text(rng, which)
+        for faulty in (False, True):
+            res = A.parse_impl(which, faulty, text)
+            case = dict(adapter=A.NAMES[which], include_faulty=faulty, output=text)
+            if res[0] == "crash":
+                chk.violation("C12 no exception other than a reject", case, "reject or data points", res[1])
+            bad = A.wellformed(res)
+            if bad:
+                chk.violation("C12 well-formed data points", case, "exactly one total, last; iterations 1..k; invocation stamp", bad)
+            if marker_oracle(which, text, faulty) and res[0] == "ok":
+                chk.violation("C12 failure marker rejects", case, "reject", "data points returned")
+        if len(chk.violations) > 5:
+            break
+    chk.count("oracle_only_outputs", 2 * nextra)
 
     # ---- engine vs CPython `re`: every generated pattern on a sample of the generated lines
     import importlib
